@@ -27,7 +27,8 @@ pub fn groups(w: &World) -> Vec<Group> {
         let is_gap = |x: &RegionSpec| x.name.0.is_empty() && x.perms == "---p" && x.offset == 0;
         if let Some(g) = out.last_mut() {
             let contiguous = g.end == r.start;
-            if contiguous && !g.name.is_empty() && g.name == r.name.0 {
+            // the memory map shows a deleted file as "<path> (deleted)": not the same name as "<path>"
+            if contiguous && !g.name.is_empty() && g.name == r.name.0 && g.deleted == r.deleted {
                 g.end = r.end();
                 g.exec |= r.perms.as_bytes()[2] == b'x';
                 i += 1;
@@ -37,7 +38,7 @@ pub fn groups(w: &World) -> Vec<Group> {
                 // directly after an executable file mapping
                 let after_exec = g.exec;
                 // or between two parts of the same file
-                let between = rs.get(i + 1).map(|n| n.start == r.end() && n.name.0 == g.name).unwrap_or(false);
+                let between = rs.get(i + 1).map(|n| n.start == r.end() && n.name.0 == g.name && n.deleted == g.deleted).unwrap_or(false);
                 if after_exec || between {
                     g.end = r.end();
                     i += 1;
@@ -154,7 +155,11 @@ pub fn check(sc: &Scenario, res: &RunResult) -> Vec<Violation> {
         }
         let so = file_elf.as_ref().and_then(|e| e.soname()).or_else(|| mem_elf.as_ref().and_then(|e| e.soname_mem(g.start)));
         let want = expected_name(&g, so.clone());
-        if m.name.as_deref() != Some(want.as_str()) {
+        // a deleted file whose path holds a different file now: the SONAME of that other file must not name this module
+        let replacement_so = if g.deleted { w.files.iter().find(|f| f.path.0 == g.name).and_then(|f| elfref::parse(&f.content.0).and_then(|e| e.soname())) } else { None };
+        if m.name.as_deref() != Some(want.as_str()) && replacement_so.is_some() && m.name.as_deref() == Some(expected_name(&g, replacement_so.clone()).as_str()) {
+            out.push(v("C08", "deleted-module-named-after-replacement-file", format!("{:?}: the mapped file is deleted and its image carries no SONAME; the name comes from the DT_SONAME {:?} of the different file that now has this path", m.name, replacement_so)));
+        } else if m.name.as_deref() != Some(want.as_str()) {
             out.push(v("C08", "module-name", format!("{:?} != {:?} (path {:?}, soname {:?}, offset {:#x}, exec {})", m.name, want, String::from_utf8_lossy(&g.name), so, g.offset, g.exec)));
         }
     }
